@@ -111,6 +111,10 @@ def scan_function(prog: Program, m: ModuleInfo, qual: str, fn: ast.FunctionDef, 
                     hits.append(Hit("host-callback", q, m.relpath, qual, n.lineno))
                 if any(q == p.rstrip(".") or q.startswith(p) for p in FORBIDDEN_PREFIXES) or q in FORBIDDEN_NAMES:
                     hits.append(Hit("forbidden-callee", q, m.relpath, qual, n.lineno))
+                if q == "hash" and fn.name != "__hash__":
+                    # hash() of str / bytes (and of anything containing them) is salted per interpreter process (PYTHONHASHSEED):
+                    # a value derived from it differs between two runs of the same program
+                    hits.append(Hit("forbidden-callee", "hash (salted per process for str/bytes)", m.relpath, qual, n.lineno))
                 if q in KEY_CTORS and n.args and all(isinstance(a, (ast.Constant, ast.UnaryOp)) for a in n.args):
                     hits.append(Hit("constant-key", ast.unparse(n), m.relpath, qual, n.lineno))
                 if q.split(".")[-1] in COLLECTIVES and q.startswith("jax."):
@@ -156,17 +160,122 @@ def _with_imports(m: ModuleInfo, extra: dict) -> ModuleInfo:
 
 
 def module_level_state(prog: Program, m: ModuleInfo) -> list[Hit]:
-    """Module-level mutable containers that functions of the module mutate (counters, caches)."""
+    """Module-level mutable containers that functions of the module mutate (counters, caches, shared defaults) - directly or
+    through a local alias (`d = DEFAULTS; d |= overrides` rewrites DEFAULTS for every later user)."""
     hits = []
-    mutable = {n for n, v in m.assigns.items() if isinstance(v, (ast.List, ast.Dict, ast.Set)) and n != "__all__"}
+    mutable = set()
+    for st in m.tree.body:
+        tgt = val = None
+        if isinstance(st, ast.Assign) and len(st.targets) == 1 and isinstance(st.targets[0], ast.Name):
+            tgt, val = st.targets[0].id, st.value
+        elif isinstance(st, ast.AnnAssign) and isinstance(st.target, ast.Name) and st.value is not None:
+            tgt, val = st.target.id, st.value
+        if tgt is None or tgt == "__all__":
+            continue
+        if isinstance(val, (ast.List, ast.Dict, ast.Set, ast.ListComp, ast.DictComp, ast.SetComp)) or (
+                isinstance(val, ast.Call) and ast.unparse(val.func).split(".")[-1] in ("dict", "list", "set", "OrderedDict", "defaultdict", "deque")):
+            mutable.add(tgt)
+    MUTATORS = ("append", "add", "update", "extend", "pop", "setdefault", "clear", "insert", "remove", "popitem", "discard", "appendleft", "sort", "reverse", "__setitem__")
     for fn in ast.walk(m.tree):
         if not isinstance(fn, ast.FunctionDef):
             continue
         local = local_names(fn)
+        # names that denote a module-level container inside this function: the container itself (unless shadowed) and plain aliases of it
+        refers = {n_: n_ for n_ in mutable if n_ not in local or any(isinstance(g, ast.Global) and n_ in g.names for g in ast.walk(fn))}
         for n in ast.walk(fn):
-            if isinstance(n, ast.Call) and isinstance(n.func, ast.Attribute) and isinstance(n.func.value, ast.Name):
-                if n.func.value.id in mutable and n.func.value.id not in local and n.func.attr in ("append", "add", "update", "extend", "pop", "setdefault", "clear"):
-                    hits.append(Hit("module-state-mutation", ast.unparse(n)[:60], m.relpath, fn.name, n.lineno))
-            if isinstance(n, ast.Subscript) and not isinstance(n.ctx, ast.Load) and isinstance(n.value, ast.Name) and n.value.id in mutable and n.value.id not in local:
-                hits.append(Hit("module-state-mutation", ast.unparse(n)[:60], m.relpath, fn.name, n.lineno))
+            if isinstance(n, ast.Assign) and isinstance(n.value, ast.Name) and n.value.id in refers:
+                for t in n.targets:
+                    if isinstance(t, ast.Name):
+                        refers[t.id] = refers[n.value.id]
+        for n in ast.walk(fn):
+            if isinstance(n, ast.Call) and isinstance(n.func, ast.Attribute) and isinstance(n.func.value, ast.Name) and n.func.value.id in refers and n.func.attr in MUTATORS:
+                hits.append(Hit("module-state-mutation", f"{ast.unparse(n)[:60]} (module-level {refers[n.func.value.id]})", m.relpath, fn.name, n.lineno))
+            if isinstance(n, ast.Subscript) and not isinstance(n.ctx, ast.Load) and isinstance(n.value, ast.Name) and n.value.id in refers:
+                hits.append(Hit("module-state-mutation", f"{ast.unparse(n)[:60]} (module-level {refers[n.value.id]})", m.relpath, fn.name, n.lineno))
+            if isinstance(n, ast.AugAssign) and isinstance(n.target, ast.Name) and n.target.id in refers:
+                hits.append(Hit("module-state-mutation", f"{ast.unparse(n)[:60]} (in-place update of module-level {refers[n.target.id]})", m.relpath, fn.name, n.lineno))
+    return hits
+
+
+def cell_var_from_loop(fn: ast.FunctionDef) -> list[str]:
+    """Function values created inside a loop body that read a variable the loop rebinds (its target, or a name assigned in the
+    body) as a FREE variable: Python closures bind late, so every such function sees the value of the LAST iteration when it is
+    called after the loop (`fns.append(lambda x: getattr(x, name))`). A default argument (`name=name`) binds early and is fine;
+    so is a function that is called within the same statement. Returns readable hits."""
+    hits = []
+    for loop in ast.walk(fn):
+        if not isinstance(loop, (ast.For, ast.While)):
+            continue
+        rebound = set()
+        if isinstance(loop, ast.For):
+            for t in ast.walk(loop.target):
+                if isinstance(t, ast.Name):
+                    rebound.add(t.id)
+        for st in loop.body:
+            for n in ast.walk(st):
+                if isinstance(n, ast.Name) and isinstance(n.ctx, ast.Store):
+                    rebound.add(n.id)
+        for st in loop.body:
+            # only function values that OUTLIVE the iteration matter: assigned, returned/yielded, put into a container literal or
+            # handed to a container mutator; a lambda passed to an ordinary call (tree.map, sorted(key=...)) is used at once
+            stored = set()
+            for c in ast.walk(st):
+                if isinstance(c, ast.Call) and isinstance(c.func, ast.Attribute) and c.func.attr in ("append", "extend", "insert", "add", "setdefault", "update", "appendleft", "__setitem__"):
+                    for a_ in list(c.args) + [k.value for k in c.keywords]:
+                        stored |= {id(x) for x in ast.walk(a_) if isinstance(x, ast.Lambda)}
+                if isinstance(c, (ast.Assign, ast.AnnAssign, ast.AugAssign, ast.Return, ast.Yield)) and getattr(c, "value", None) is not None:
+                    v = c.value
+                    tops = [v] + (list(v.elts) if isinstance(v, (ast.Tuple, ast.List, ast.Set)) else []) + (list(v.values) if isinstance(v, ast.Dict) else [])
+                    stored |= {id(x) for x in tops if isinstance(x, ast.Lambda)}
+                if isinstance(c, ast.FunctionDef):
+                    stored.add(id(c))
+            for n in ast.walk(st):
+                if isinstance(n, (ast.Lambda, ast.FunctionDef)) and id(n) in stored:
+                    a = n.args
+                    params = {x.arg for x in a.posonlyargs + a.args + a.kwonlyargs}
+                    if a.vararg:
+                        params.add(a.vararg.arg)
+                    if a.kwarg:
+                        params.add(a.kwarg.arg)
+                    body = [n.body] if isinstance(n, ast.Lambda) else n.body
+                    local_stores = {m.id for b_ in body for m in ast.walk(b_) if isinstance(m, ast.Name) and isinstance(m.ctx, ast.Store)}
+                    free = {m.id for b_ in body for m in ast.walk(b_) if isinstance(m, ast.Name) and isinstance(m.ctx, ast.Load)} - params - local_stores
+                    bad = sorted(free & rebound)
+                    if bad:
+                        hits.append(f"line {n.lineno}: a function created in the loop at line {loop.lineno} reads `{', '.join(bad)}` late (last iteration's value)")
+    return hits
+
+
+def python_bool_on_arrays(prog: Program, m: ModuleInfo, fn: ast.FunctionDef) -> list[str]:
+    """`and` / `or` / `not` applied to an array-valued operand. Python evaluates these through bool(): under tracing that raises, and
+    eagerly `flag and array` returns the Python object `False` (not a Bool array) when the flag is off. An operand counts as
+    array-valued when it contains a bitwise inversion `~x`, a call of a method of `self`, or a jax / jax.numpy call."""
+    hits = []
+
+    def arrayish(e):
+        for n in ast.walk(e):
+            if isinstance(n, ast.UnaryOp) and isinstance(n.op, ast.Invert):
+                return f"`{ast.unparse(n)[:50]}`"
+            if isinstance(n, ast.Call):
+                f = n.func
+                if isinstance(f, ast.Attribute) and isinstance(f.value, ast.Name) and f.value.id == "self":
+                    return f"`self.{f.attr}(...)`"
+                q = qualname_of(prog, m, f, set())
+                if q and q.startswith(("jax.", "mujoco.mjx.")) and q.split(".")[-1] not in ("shape", "ndim", "size", "issubdtype", "isscalar"):
+                    return f"`{q}(...)`"
+        return None
+
+    for n in ast.walk(fn):
+        ops = []
+        if isinstance(n, ast.BoolOp):
+            ops = n.values
+            word = "and" if isinstance(n.op, ast.And) else "or"
+        elif isinstance(n, ast.UnaryOp) and isinstance(n.op, ast.Not):
+            ops = [n.operand]
+            word = "not"
+        for o in ops:
+            a = arrayish(o)
+            if a:
+                hits.append(f"line {n.lineno}: Python `{word}` over the array value {a}")
+                break
     return hits
